@@ -5,6 +5,8 @@ From Coq Require Import ZArith List Bool Lia ZifyBool.
 Require Import Base GenLeaf DynModel DynSpec DynCoreLemmas.
 Local Open Scope Z_scope.
 
+Ltac csplit := repeat match goal with |- _ /\ _ => refine (conj _ _) end.
+
 (* head key of a cursor: None = exhausted, which the tree stores as the sentinel kmax *)
 Definition hkey (kmax : Z) (o : option Z) : Z := match o with Some k => k | None => kmax end.
 
@@ -32,3 +34,746 @@ Record tree_iface (kmax : Z) (tree_ok : ltree -> list (option Z) -> Prop) : Prop
     match nk with Some k' => k' < kmax | None => True end ->
     exists t', delete_min_insert kmax t nk = Ok t' /\ tree_ok t' (set_nth heads (Z.to_nat s) nk)
 }.
+
+(* ================================================================================================
+   Part 2: the concrete loser tree.
+   ================================================================================================ *)
+
+(* strict order on (key, source): smaller key first, ties to the smaller source *)
+Definition lt2b (a b : loser) : bool := (fst a <? fst b) || ((fst a =? fst b) && (snd a <? snd b)).
+Definition win (a b : loser) : loser := if lt2b b a then b else a.
+Definition lose (a b : loser) : loser := if lt2b b a then a else b.
+
+Lemma lt2b_spec : forall a b, lt2b a b = true <-> (fst a < fst b \/ (fst a = fst b /\ snd a < snd b)).
+Proof. intros [a1 a2] [b1 b2]. unfold lt2b. cbn [fst snd]. lia. Qed.
+
+Lemma lt2b_false_both : forall a b, lt2b a b = false -> lt2b b a = false -> a = b.
+Proof.
+  intros [a1 a2] [b1 b2] H1 H2. unfold lt2b in *. cbn [fst snd] in *. f_equal; lia.
+Qed.
+
+Lemma win_comm : forall a b, win a b = win b a.
+Proof.
+  intros a b. unfold win. destruct (lt2b b a) eqn:E1, (lt2b a b) eqn:E2; auto.
+  - apply lt2b_spec in E1. apply lt2b_spec in E2. lia.
+  - apply lt2b_false_both; auto.
+Qed.
+
+Lemma lose_comm : forall a b, lose a b = lose b a.
+Proof.
+  intros a b. unfold lose. destruct (lt2b b a) eqn:E1, (lt2b a b) eqn:E2; auto.
+  - apply lt2b_spec in E1. apply lt2b_spec in E2. lia.
+  - symmetry. apply lt2b_false_both; auto.
+Qed.
+
+(* le2 a b: a is not worse than b *)
+Definition le2 (a b : loser) : Prop := lt2b b a = false.
+
+Lemma le2_refl : forall a, le2 a a.
+Proof. intros [a1 a2]. unfold le2, lt2b. cbn [fst snd]. lia. Qed.
+Lemma le2_trans : forall a b c, le2 a b -> le2 b c -> le2 a c.
+Proof. intros [a1 a2] [b1 b2] [c1 c2]. unfold le2, lt2b. cbn [fst snd]. lia. Qed.
+Lemma le2_antisym : forall a b, le2 a b -> le2 b a -> a = b.
+Proof. intros a b H1 H2. apply lt2b_false_both; auto. Qed.
+Lemma le2_total : forall a b, le2 a b \/ le2 b a.
+Proof. intros [a1 a2] [b1 b2]. unfold le2, lt2b. cbn [fst snd]. lia. Qed.
+
+Lemma win_le_l : forall a b, le2 (win a b) a.
+Proof. intros a b. unfold win. destruct (lt2b b a) eqn:E; [|apply le2_refl].
+  destruct a, b. unfold le2, lt2b in *. cbn [fst snd] in *. lia. Qed.
+Lemma win_le_r : forall a b, le2 (win a b) b.
+Proof. intros a b. rewrite win_comm. apply win_le_l. Qed.
+Lemma win_cases : forall a b, win a b = a \/ win a b = b.
+Proof. intros a b. unfold win. destruct (lt2b b a); auto. Qed.
+Lemma lose_of_le : forall a b, le2 a b -> lose a b = b.
+Proof. intros a b H. unfold lose. unfold le2 in H. rewrite H. reflexivity. Qed.
+Lemma win_of_le : forall a b, le2 a b -> win a b = a.
+Proof. intros a b H. unfold win. unfold le2 in H. rewrite H. reflexivity. Qed.
+
+(* ---------- powers of two ---------- *)
+Fixpoint p2 (h : nat) : Z := match h with O => 1 | S h' => 2 * p2 h' end.
+
+Lemma p2_pos : forall h, 0 < p2 h.
+Proof. induction h; cbn [p2]; lia. Qed.
+Lemma p2_add : forall a b, p2 (a + b) = p2 a * p2 b.
+Proof. induction a; intros b; cbn [p2 plus]; [lia|]. rewrite IHa. ring. Qed.
+Lemma p2_mono : forall a b, (a <= b)%nat -> p2 a <= p2 b.
+Proof.
+  intros a b H. replace b with (a + (b - a))%nat by lia. rewrite p2_add.
+  pose proof (p2_pos a). pose proof (p2_pos (b - a)). nia.
+Qed.
+Lemma p2_mono_lt : forall a b, (a < b)%nat -> 2 * p2 a <= p2 b.
+Proof. intros a b H. change (2 * p2 a) with (p2 (S a)). apply p2_mono. lia. Qed.
+
+(* the subtrees of the two children of r occupy disjoint index ranges at every pair of depths *)
+Lemma sib_disjoint : forall r d d' i, 1 <= r ->
+  (2 * r + 1) * p2 d' <= i < (2 * r + 2) * p2 d' -> ~ (2 * r * p2 d <= i < (2 * r + 1) * p2 d).
+Proof.
+  intros r d d' i Hr H1 H2. pose proof (p2_pos d). pose proof (p2_pos d').
+  destruct (Nat.le_gt_cases d d') as [Hd|Hd].
+  - pose proof (p2_mono d d' Hd). nia.
+  - pose proof (p2_mono_lt d' d Hd). nia.
+Qed.
+
+(* node r lies at depth d of the heap-ordered complete tree (root 1 at depth 0) *)
+Definition dep (d : nat) (r : Z) : Prop := p2 d <= r < 2 * p2 d.
+
+Lemma dep_children : forall d r, dep d r -> dep (S d) (2 * r) /\ dep (S d) (2 * r + 1).
+Proof. unfold dep. intros d r H. cbn [p2]. lia. Qed.
+
+Lemma dep_parent : forall d r, dep (S d) r -> dep d (r / 2).
+Proof.
+  unfold dep. intros d r H. cbn [p2] in H.
+  pose proof (Z.div_mod r 2 ltac:(lia)). pose proof (Z.mod_pos_bound r 2 ltac:(lia)). lia.
+Qed.
+
+Lemma dep_zero : forall r, dep 0 r -> r = 1.
+Proof. unfold dep. cbn [p2]. intros. lia. Qed.
+
+(* ---------- the winner of a subtree ---------- *)
+Section WSec.
+Variable k : Z.                       (* number of leaves; leaf j is node k + j *)
+
+Fixpoint W (vals : Z -> loser) (h : nat) (node : Z) : loser :=
+  match h with
+  | O => vals (node - k)
+  | S h' => win (W vals h' (2 * node)) (W vals h' (2 * node + 1))
+  end.
+
+(* leaves below node r of height h: k + j in [r * 2^h, (r+1) * 2^h) *)
+Definition under (h : nat) (r j : Z) : Prop := r * p2 h <= k + j < (r + 1) * p2 h.
+
+Lemma under_split : forall h r j, under (S h) r j <-> under h (2 * r) j \/ under h (2 * r + 1) j.
+Proof. unfold under. intros h r j. cbn [p2]. pose proof (p2_pos h). nia. Qed.
+
+Lemma W_in : forall vals h r, exists j, under h r j /\ W vals h r = vals j.
+Proof.
+  intros vals. induction h as [|h IH]; intros r.
+  - exists (r - k). unfold under. cbn [p2 W]. split; [lia|reflexivity].
+  - cbn [W]. destruct (IH (2 * r)) as [j1 [U1 E1]]. destruct (IH (2 * r + 1)) as [j2 [U2 E2]].
+    destruct (win_cases (W vals h (2 * r)) (W vals h (2 * r + 1))) as [E|E]; rewrite E.
+    + exists j1. split; auto. apply under_split. auto.
+    + exists j2. split; auto. apply under_split. auto.
+Qed.
+
+Lemma W_min : forall vals h r j, under h r j -> le2 (W vals h r) (vals j).
+Proof.
+  intros vals. induction h as [|h IH]; intros r j U.
+  - unfold under in U. cbn [p2 W] in *. replace (r - k) with j by lia. apply le2_refl.
+  - cbn [W]. apply under_split in U. destruct U as [U|U].
+    + eapply le2_trans; [apply win_le_l|apply IH; auto].
+    + eapply le2_trans; [apply win_le_r|apply IH; auto].
+Qed.
+
+Lemma W_ext : forall vals vals' h r, (forall j, under h r j -> vals j = vals' j) ->
+  W vals h r = W vals' h r.
+Proof.
+  intros vals vals'. induction h as [|h IH]; intros r H.
+  - cbn [W]. apply H. unfold under. cbn [p2]. lia.
+  - cbn [W]. rewrite (IH (2 * r)), (IH (2 * r + 1)); auto.
+    + intros j U. apply H. apply under_split. auto.
+    + intros j U. apply H. apply under_split. auto.
+Qed.
+
+(* a subtree containing a globally minimal leaf has that value as its winner *)
+Lemma W_of_min : forall vals h r s, under h r s -> (forall j, under h r j -> le2 (vals s) (vals j)) ->
+  W vals h r = vals s.
+Proof.
+  intros vals h r s U Hmin. destruct (W_in vals h r) as [j [Uj Ej]].
+  apply le2_antisym; [apply W_min; auto|]. rewrite Ej. apply Hmin; auto.
+Qed.
+
+(* ---------- the array ---------- *)
+Definition ga (arr : list loser) (i : Z) : loser :=
+  match nth_error arr (Z.to_nat i) with Some x => x | None => (0, 0) end.
+
+Lemma lt_get_ga : forall kk arr i, 0 <= i < zlen arr -> lt_get (mkLt kk arr) i = Ok (ga arr i).
+Proof.
+  intros kk arr i H. unfold lt_get, ga. cbn [lt_losers].
+  destruct (nth_res_total _ arr i H) as [a Ha]. rewrite Ha. apply nth_res_ok in Ha.
+  destruct Ha as [_ Ha]. rewrite Ha. reflexivity.
+Qed.
+
+Lemma lt_set_ok : forall kk arr i v, 0 <= i < zlen arr ->
+  lt_set (mkLt kk arr) i v = Ok (mkLt kk (set_nth arr (Z.to_nat i) v)).
+Proof.
+  intros kk arr i v H. unfold lt_set. cbn [lt_losers lt_k].
+  assert (E : ((i <? 0) || (i >=? zlen arr)) = false) by lia. rewrite E. reflexivity.
+Qed.
+
+Lemma ga_set : forall arr n v i, 0 <= n < zlen arr -> 0 <= i ->
+  ga (set_nth arr (Z.to_nat n) v) i = if i =? n then v else ga arr i.
+Proof.
+  intros arr n v i Hn Hi. unfold ga. rewrite set_nth_nth_error. unfold zlen in Hn.
+  destruct (i =? n) eqn:E.
+  - assert (E1 : Nat.eqb (Z.to_nat i) (Z.to_nat n) = true) by (apply Nat.eqb_eq; lia). rewrite E1.
+    assert (E2 : Nat.ltb (Z.to_nat n) (length arr) = true) by (apply Nat.ltb_lt; lia). rewrite E2. reflexivity.
+  - assert (E1 : Nat.eqb (Z.to_nat i) (Z.to_nat n) = false) by (apply Nat.eqb_neq; lia). rewrite E1. reflexivity.
+Qed.
+
+Lemma zlen_set_nth : forall A (l : list A) n v, zlen (set_nth l n v) = zlen l.
+Proof. intros. unfold zlen. rewrite set_nth_length. reflexivity. Qed.
+
+Lemma under_inj : forall h r r' j, under h r j -> under h r' j -> r = r'.
+Proof.
+  unfold under. intros h r r' j H1 H2. pose proof (p2_pos h).
+  destruct (Z_lt_dec r r'); [nia|]. destruct (Z_lt_dec r' r); [nia|]. lia.
+Qed.
+
+Variable H : nat.
+Hypothesis Hk : k = p2 H.
+
+Lemma under_range : forall d h r j, (d + h = H)%nat -> dep d r -> under h r j -> 0 <= j < k.
+Proof.
+  unfold dep, under. intros d h r j E Hd Hu. subst k. rewrite <- E, p2_add in *.
+  pose proof (p2_pos h). pose proof (p2_pos d). nia.
+Qed.
+
+Lemma dep_lt_k : forall d r, (d < H)%nat -> dep d r -> 1 <= r < k.
+Proof.
+  unfold dep. intros d r E Hd. pose proof (p2_pos d). pose proof (p2_mono_lt d H E). lia.
+Qed.
+
+Lemma dep_neq : forall d d' r r', (d < d')%nat -> dep d r -> dep d' r' -> r < r'.
+Proof. unfold dep. intros d d' r r' E H1 H2. pose proof (p2_mono_lt d d' E). lia. Qed.
+
+Definition nodes_ok (vals : Z -> loser) (arr : list loser) : Prop :=
+  forall d h r, (d + S h = H)%nat -> dep d r ->
+    ga arr r = lose (W vals h (2 * r)) (W vals h (2 * r + 1)).
+
+Definition tree_inv (vals : Z -> loser) (arr : list loser) : Prop :=
+  zlen arr = 2 * k /\ nodes_ok vals arr /\ ga arr 0 = W vals H 1.
+
+Lemma dmi_test : forall (lp : loser) key source,
+  ((fst lp <? key) || ((key >=? fst lp) && (snd lp <? source))) = lt2b lp (key, source).
+Proof. intros [a b] key source. unfold lt2b. cbn [fst snd]. lia. Qed.
+
+(* ---------- replaying the path of the deleted minimum ---------- *)
+Section Replay.
+Variable vals : Z -> loser.
+Variable s : Z.
+Variable nv : loser.
+Hypothesis Hs : 0 <= s < k.
+Hypothesis Hmin : forall j, 0 <= j < k -> le2 (vals s) (vals j).
+Definition upd : Z -> loser := fun j => if j =? s then nv else vals j.
+
+Lemma upd_same_off : forall h r, ~ under h r s -> W upd h r = W vals h r.
+Proof.
+  intros h r Hn. apply W_ext. intros j U. unfold upd. destruct (j =? s) eqn:E; auto.
+  assert (j = s) by lia. subst j. contradiction.
+Qed.
+
+Lemma sibling_value : forall d0 hh pos c, (d0 + S hh = H)%nat -> dep d0 pos ->
+  c = 2 * pos \/ c = 2 * pos + 1 -> under hh c s ->
+  lose (W vals hh (2 * pos)) (W vals hh (2 * pos + 1)) = W upd hh (4 * pos + 1 - c).
+Proof.
+  intros d0 hh pos c E Hd Hc Hu.
+  assert (Hdc : dep (S d0) c) by (destruct (dep_children d0 pos Hd); destruct Hc; subst; auto).
+  assert (Hds : dep (S d0) (4 * pos + 1 - c)).
+  { destruct (dep_children d0 pos Hd). destruct Hc; subst c.
+    - replace (4 * pos + 1 - 2 * pos) with (2 * pos + 1) by lia. auto.
+    - replace (4 * pos + 1 - (2 * pos + 1)) with (2 * pos) by lia. auto. }
+  assert (Hwc : W vals hh c = vals s).
+  { apply W_of_min; auto. intros j Uj. apply Hmin. eapply (under_range (S d0) hh c); eauto. lia. }
+  assert (Hle : le2 (W vals hh c) (W vals hh (4 * pos + 1 - c))).
+  { rewrite Hwc. destruct (W_in vals hh (4 * pos + 1 - c)) as [j [Uj Ej]]. rewrite Ej.
+    apply Hmin. eapply (under_range (S d0) hh); eauto. lia. }
+  assert (Hoff : ~ under hh (4 * pos + 1 - c) s).
+  { intros U. pose proof (under_inj _ _ _ _ Hu U). lia. }
+  rewrite (upd_same_off _ _ Hoff).
+  destruct Hc; subst c.
+  - replace (4 * pos + 1 - 2 * pos) with (2 * pos + 1) in * by lia. apply lose_of_le; auto.
+  - replace (4 * pos + 1 - (2 * pos + 1)) with (2 * pos) in * by lia. rewrite lose_comm. apply lose_of_le; auto.
+Qed.
+
+Lemma parent_W : forall hh pos c, c = 2 * pos \/ c = 2 * pos + 1 ->
+  win (W upd hh c) (W upd hh (4 * pos + 1 - c)) = W upd (S hh) pos /\
+  lose (W upd hh c) (W upd hh (4 * pos + 1 - c)) = lose (W upd hh (2 * pos)) (W upd hh (2 * pos + 1)).
+Proof.
+  intros hh pos c Hc. cbn [W]. destruct Hc; subst c.
+  - replace (4 * pos + 1 - 2 * pos) with (2 * pos + 1) by lia. auto.
+  - replace (4 * pos + 1 - (2 * pos + 1)) with (2 * pos) by lia. split; [apply win_comm|apply lose_comm].
+Qed.
+
+Lemma dmi_loop_ok : forall fuel hh d c arr cand,
+  (d + hh = H)%nat -> (d + 1 <= fuel)%nat -> dep d c -> under hh c s -> zlen arr = 2 * k ->
+  cand = W upd hh c ->
+  (forall d' h' r, (d' + S h' = H)%nat -> (h' < hh)%nat -> dep d' r ->
+     ga arr r = lose (W upd h' (2 * r)) (W upd h' (2 * r + 1))) ->
+  (forall d' h' r, (d' + S h' = H)%nat -> (hh <= h')%nat -> dep d' r ->
+     ga arr r = lose (W vals h' (2 * r)) (W vals h' (2 * r + 1))) ->
+  exists arr', dmi_loop fuel (mkLt k arr) (c / 2) (fst cand) (snd cand)
+                 = Ok (mkLt k arr', fst (W upd H 1), snd (W upd H 1)) /\
+               zlen arr' = 2 * k /\ nodes_ok upd arr'.
+Proof.
+  induction fuel as [|fuel IH]; intros hh d c arr cand E Hf Hd Hu Hz Hcand I1 I2; [lia|].
+  destruct d as [|d0].
+  - apply dep_zero in Hd. subst c. change (1 / 2) with 0. cbn [dmi_loop]. cbn [plus] in E. subst hh.
+    exists arr. rewrite Hcand. csplit; auto. intros d' h' r E' Hd'. apply (I1 d' h' r); auto. lia.
+  - pose proof (dep_parent d0 c Hd) as Hdp. remember (c / 2) as pos eqn:Epos.
+    destruct (dep_lt_k d0 pos ltac:(lia) Hdp) as [Hp1 Hpk].
+    assert (Hc : c = 2 * pos \/ c = 2 * pos + 1).
+    { subst pos. pose proof (Z.div_mod c 2 ltac:(lia)). pose proof (Z.mod_pos_bound c 2 ltac:(lia)). lia. }
+    assert (Hup : under (S hh) pos s) by (apply under_split; destruct Hc; subst c; auto).
+    set (lp := ga arr pos).
+    assert (Hlp : lp = W upd hh (4 * pos + 1 - c)).
+    { unfold lp. rewrite (I2 d0 hh pos ltac:(lia) ltac:(lia) Hdp). eapply sibling_value; eauto. lia. }
+    destruct (parent_W hh pos c Hc) as [PW PL]. rewrite <- Hcand, <- Hlp in PW, PL.
+    assert (Hgen : forall arr1 cand1, zlen arr1 = 2 * k -> ga arr1 pos = lose cand lp ->
+              (forall r, 0 <= r -> r <> pos -> ga arr1 r = ga arr r) -> cand1 = win cand lp ->
+              exists arr', dmi_loop fuel (mkLt k arr1) (pos / 2) (fst cand1) (snd cand1)
+                             = Ok (mkLt k arr', fst (W upd H 1), snd (W upd H 1)) /\
+                           zlen arr' = 2 * k /\ nodes_ok upd arr').
+    { intros arr1 cand1 Hz1 Hpos1 Hoth Hc1. apply (IH (S hh) d0 pos arr1 cand1); auto; try lia.
+      - congruence.
+      - intros d' h' r E' Hlt Hd'. assert (Hr0 : 0 <= r) by (unfold dep in Hd'; pose proof (p2_pos d'); lia).
+        destruct (Nat.eq_dec h' hh) as [->|Hne].
+        + assert (d' = d0) by lia. subst d'. destruct (Z.eq_dec r pos) as [->|Hrp].
+          * rewrite Hpos1. exact PL.
+          * rewrite Hoth by auto. rewrite (I2 d0 hh r ltac:(lia) ltac:(lia) Hd').
+            assert (Hnu : ~ under (S hh) r s) by (intros U; apply Hrp; eapply under_inj; eauto).
+            rewrite !upd_same_off; auto; intros U; apply Hnu; apply under_split; auto.
+        + rewrite Hoth; auto; [apply (I1 d' h' r); auto; lia|].
+          pose proof (dep_neq d0 d' pos r ltac:(lia) Hdp Hd'). lia.
+      - intros d' h' r E' Hle Hd'. assert (Hr0 : 0 <= r) by (unfold dep in Hd'; pose proof (p2_pos d'); lia).
+        rewrite Hoth; auto; [apply (I2 d' h' r); auto; lia|].
+        pose proof (dep_neq d' d0 r pos ltac:(lia) Hd' Hdp). lia. }
+    cbn [dmi_loop]. assert (Ep : (pos >? 0) = true) by lia. rewrite Ep.
+    rewrite (lt_get_ga k arr pos ltac:(lia)). fold lp. cbn [bind]. rewrite dmi_test.
+    replace (fst cand, snd cand) with cand by (destruct cand; reflexivity).
+    destruct (lt2b lp cand) eqn:Et.
+    + rewrite (lt_set_ok k arr pos _ ltac:(lia)). cbn [bind].
+      replace (fst cand, snd cand) with cand by (destruct cand; reflexivity).
+      apply Hgen.
+      * rewrite zlen_set_nth. auto.
+      * rewrite ga_set by lia. rewrite Z.eqb_refl. unfold lose. rewrite Et. reflexivity.
+      * intros r Hr Hne. rewrite ga_set by lia. destruct (r =? pos) eqn:Er; [lia|reflexivity].
+      * unfold win. rewrite Et. reflexivity.
+    + apply Hgen; auto.
+      * fold lp. unfold lose. rewrite Et. reflexivity.
+      * unfold win. rewrite Et. reflexivity.
+Qed.
+
+Lemma dmi_ok : forall km arr nk, tree_inv vals arr -> snd (vals s) = s -> (H + 1 <= 12)%nat ->
+  nv = (hkey km nk, s) ->
+  exists arr', delete_min_insert km (mkLt k arr) nk = Ok (mkLt k arr') /\ tree_inv upd arr'.
+Proof.
+  intros km arr nk [Hz [Hn H0]] Hsnd HH Hnv. pose proof (p2_pos H) as Hp.
+  assert (Hw : W vals H 1 = vals s).
+  { apply W_of_min.
+    - unfold under. lia.
+    - intros j U. apply Hmin. eapply (under_range 0 H 1); eauto. unfold dep. cbn [p2]. lia. }
+  unfold delete_min_insert. rewrite (lt_get_ga k arr 0 ltac:(lia)). cbn [bind lt_k].
+  rewrite H0, Hw, Hsnd.
+  assert (Hkey : match nk with Some k0 => k0 | None => km end = fst nv) by (rewrite Hnv; destruct nk; reflexivity).
+  rewrite Hkey. assert (Hs2 : snd nv = s) by (rewrite Hnv; reflexivity).
+  destruct (dmi_loop_ok 12 0 H (k + s) arr nv) as [arr1 [Hl [Hz1 Hn1]]]; auto; try lia.
+  - unfold dep. lia.
+  - unfold under. cbn [p2]. lia.
+  - cbn [W]. unfold upd. replace (k + s - k) with s by lia. rewrite Z.eqb_refl. reflexivity.
+  - intros d' h' r E _ Hd. apply (Hn d' h' r); auto.
+  - rewrite Hs2 in Hl. rewrite Hl. cbn [bind]. rewrite (lt_set_ok k arr1 0 _ ltac:(lia)).
+    exists (set_nth arr1 (Z.to_nat 0) (fst (W upd H 1), snd (W upd H 1))). split; [reflexivity|].
+    split; [rewrite zlen_set_nth; auto|]. split.
+    + intros d h r E Hd. rewrite ga_set by (try lia; unfold dep in Hd; pose proof (p2_pos d); lia).
+      assert (Er : (r =? 0) = false) by (unfold dep in Hd; pose proof (p2_pos d); lia). rewrite Er.
+      apply (Hn1 d h r); auto.
+    + rewrite ga_set by lia. cbn. destruct (W upd H 1); reflexivity.
+Qed.
+
+End Replay.
+
+(* ---------- building the tree ---------- *)
+Section Build.
+Variable vals : Z -> loser.
+(* equal keys are ordered by leaf position: the source numbers grow with the leaf index *)
+Hypothesis Hmono : forall i j, 0 <= i -> i < j -> j < k -> fst (vals i) = fst (vals j) -> snd (vals i) <= snd (vals j).
+
+Definition leaves_ok (arr : list loser) : Prop := forall j, 0 <= j < k -> ga arr (k + j) = vals j.
+
+Definition outside (h : nat) (r i : Z) : Prop :=
+  forall e, (e < h)%nat -> ~ (r * p2 e <= i < (r + 1) * p2 e).
+
+Lemma outside_children : forall h r i, outside (S h) r i -> outside h (2 * r) i /\ outside h (2 * r + 1) i.
+Proof.
+  unfold outside. intros h r i Ho. split; intros e He Hin; apply (Ho (S e) ltac:(lia)); cbn [p2];
+    pose proof (p2_pos e); nia.
+Qed.
+
+Lemma left_before_right : forall h r i j, under h (2 * r) i -> under h (2 * r + 1) j -> i < j.
+Proof. unfold under. intros h r i j H1 H2. pose proof (p2_pos h). nia. Qed.
+
+Lemma pick_left : forall ll lr, (fst lr >=? fst ll) = true -> (fst ll = fst lr -> snd ll <= snd lr) ->
+  win ll lr = ll /\ lose ll lr = lr.
+Proof.
+  intros [a1 a2] [b1 b2] H1 H2. unfold win, lose, lt2b. cbn [fst snd] in *.
+  assert (E : ((b1 <? a1) || ((b1 =? a1) && (b2 <? a2))) = false) by lia. rewrite E. auto.
+Qed.
+
+Lemma pick_right : forall ll lr, (fst lr >=? fst ll) = false -> win ll lr = lr /\ lose ll lr = ll.
+Proof.
+  intros [a1 a2] [b1 b2] H1. unfold win, lose, lt2b. cbn [fst snd] in *.
+  assert (E : ((b1 <? a1) || ((b1 =? a1) && (b2 <? a2))) = true) by lia. rewrite E. auto.
+Qed.
+
+Definition sub_nodes_ok (h : nat) (r : Z) (arr : list loser) : Prop :=
+  forall e h' r', (e + S h' = h)%nat -> r * p2 e <= r' < (r + 1) * p2 e ->
+    ga arr r' = lose (W vals h' (2 * r')) (W vals h' (2 * r' + 1)).
+
+Lemma init_winner_ok : forall fuel h d r arr, (h < fuel)%nat -> (d + h = H)%nat -> dep d r ->
+  zlen arr = 2 * k -> leaves_ok arr ->
+  exists arr' w, init_winner fuel (mkLt k arr) r = Ok (mkLt k arr', w) /\ zlen arr' = 2 * k /\
+    leaves_ok arr' /\ k <= w < 2 * k /\ under h r (w - k) /\ vals (w - k) = W vals h r /\
+    (forall i, 0 <= i -> outside h r i -> ga arr' i = ga arr i) /\ sub_nodes_ok h r arr'.
+Proof.
+  induction fuel as [|fuel IH]; intros h d r arr Hf E Hd Hz Hl; [lia|].
+  cbn [init_winner lt_k]. destruct h as [|h0].
+  - assert (Hrk : k <= r < 2 * k) by (unfold dep in Hd; replace d with H in Hd by lia; lia).
+    assert (Et : (r >=? k) = true) by lia. rewrite Et. exists arr, r. csplit; auto; try lia.
+    + unfold under. cbn [p2]. lia.
+    + intros e h' r' E'. lia.
+  - destruct (dep_lt_k d r ltac:(lia) Hd) as [Hr1 Hrk].
+    assert (Et : (r >=? k) = false) by lia. rewrite Et.
+    destruct (dep_children d r Hd) as [Hdl Hdr].
+    destruct (IH h0 (S d) (2 * r) arr ltac:(lia) ltac:(lia) Hdl Hz Hl)
+      as [arr1 [w1 [R1 [Z1 [L1 [B1 [U1 [V1 [F1 N1]]]]]]]]].
+    rewrite R1. cbn [bind].
+    destruct (IH h0 (S d) (2 * r + 1) arr1 ltac:(lia) ltac:(lia) Hdr Z1 L1)
+      as [arr2 [w2 [R2 [Z2 [L2 [B2 [U2 [V2 [F2 N2]]]]]]]]].
+    rewrite R2. cbn [bind].
+    rewrite (lt_get_ga k arr2 w2 ltac:(lia)), (lt_get_ga k arr2 w1 ltac:(lia)). cbn [bind].
+    pose proof (under_range (S d) h0 _ _ ltac:(lia) Hdl U1) as Hr1'.
+    pose proof (under_range (S d) h0 _ _ ltac:(lia) Hdr U2) as Hr2'.
+    assert (G1 : ga arr2 w1 = W vals h0 (2 * r)).
+    { rewrite <- V1, <- (L2 (w1 - k) Hr1'). f_equal. lia. }
+    assert (G2 : ga arr2 w2 = W vals h0 (2 * r + 1)).
+    { rewrite <- V2, <- (L2 (w2 - k) Hr2'). f_equal. lia. }
+    rewrite G1, G2.
+    set (ll := W vals h0 (2 * r)) in *. set (lr := W vals h0 (2 * r + 1)) in *.
+    assert (Hpost : forall X, X = lose ll lr ->
+              zlen (set_nth arr2 (Z.to_nat r) X) = 2 * k /\ leaves_ok (set_nth arr2 (Z.to_nat r) X) /\
+              (forall i, 0 <= i -> outside (S h0) r i -> ga (set_nth arr2 (Z.to_nat r) X) i = ga arr i) /\
+              sub_nodes_ok (S h0) r (set_nth arr2 (Z.to_nat r) X)).
+    { intros X HX. csplit.
+      - rewrite zlen_set_nth. auto.
+      - intros j Hj. rewrite ga_set by lia. assert (E1 : (k + j =? r) = false) by lia. rewrite E1. auto.
+      - intros i Hi Ho. rewrite ga_set by lia. assert (E1 : (i =? r) = false).
+        { specialize (Ho 0%nat ltac:(lia)). cbn [p2] in Ho. lia. }
+        rewrite E1. destruct (outside_children h0 r i Ho) as [O1 O2]. rewrite F2, F1; auto.
+      - intros e h' r' E' Hin. destruct e as [|e0].
+        + cbn [p2] in Hin. assert (r' = r) by lia. subst r'. assert (h' = h0) by lia. subst h'.
+          rewrite ga_set by lia. rewrite Z.eqb_refl. exact HX.
+        + cbn [p2] in Hin. pose proof (p2_pos e0). rewrite ga_set by nia.
+          assert (E1 : (r' =? r) = false) by nia. rewrite E1.
+          destruct (Z_lt_dec r' ((2 * r + 1) * p2 e0)) as [Hlt|Hge].
+          * rewrite F2; [apply (N1 e0 h' r'); [lia|nia]|nia|].
+            intros e2 He2 Hin2. replace (2 * r + 1 + 1) with (2 * r + 2) in Hin2 by lia.
+            apply (sib_disjoint r e0 e2 r' Hr1 Hin2). nia.
+          * apply (N2 e0 h' r'); [lia|nia]. }
+    destruct (fst lr >=? fst ll) eqn:Eg.
+    + destruct (pick_left ll lr Eg) as [PW PL].
+      { intros Ek. rewrite <- V1, <- V2 in *. apply Hmono; try lia.
+        apply (left_before_right h0 r); auto. }
+      rewrite (lt_set_ok k arr2 r _ ltac:(lia)). cbn [bind].
+      destruct (Hpost lr (eq_sym PL)) as [P1 [P2 [P3 P4]]].
+      exists (set_nth arr2 (Z.to_nat r) lr), w1. csplit; auto; try lia.
+      * apply under_split. auto.
+      * rewrite V1. cbn [W]. fold ll lr. auto.
+    + destruct (pick_right ll lr Eg) as [PW PL].
+      rewrite (lt_set_ok k arr2 r _ ltac:(lia)). cbn [bind].
+      destruct (Hpost ll (eq_sym PL)) as [P1 [P2 [P3 P4]]].
+      exists (set_nth arr2 (Z.to_nat r) ll), w2. csplit; auto; try lia.
+      * apply under_split. auto.
+      * rewrite V2. cbn [W]. fold ll lr. auto.
+Qed.
+
+Lemma lt_init_ok : forall arr, (H < 12)%nat -> zlen arr = 2 * k -> leaves_ok arr ->
+  exists arr', lt_init (mkLt k arr) = Ok (mkLt k arr') /\ tree_inv vals arr'.
+Proof.
+  intros arr HH Hz Hl. pose proof (p2_pos H) as Hp.
+  assert (Hd1 : dep 0 1) by (unfold dep; cbn [p2]; lia).
+  destruct (init_winner_ok 12 H 0 1 arr HH ltac:(lia) Hd1 Hz Hl)
+    as [arr1 [w [R1 [Z1 [L1 [B1 [U1 [V1 [F1 N1]]]]]]]]].
+  unfold lt_init. rewrite R1. cbn [bind fst snd].
+  rewrite (lt_get_ga k arr1 w ltac:(lia)). cbn [bind].
+  rewrite (lt_set_ok k arr1 0 _ ltac:(lia)).
+  exists (set_nth arr1 (Z.to_nat 0) (ga arr1 w)). split; [reflexivity|].
+  split; [rewrite zlen_set_nth; auto|]. split.
+  - intros d h r E Hd. assert (Hr : 1 <= r) by (unfold dep in Hd; pose proof (p2_pos d); lia).
+    rewrite ga_set by lia. assert (Er : (r =? 0) = false) by lia. rewrite Er.
+    apply (N1 d h r); auto. unfold dep in Hd. lia.
+  - rewrite ga_set by lia. cbn. rewrite <- V1. rewrite <- (L1 (w - k)).
+    + f_equal. lia.
+    + eapply (under_range 0 H 1); eauto.
+Qed.
+
+End Build.
+End WSec.
+
+Lemma tree_inv_ext : forall k H vals vals' arr, k = p2 H -> (forall j, 0 <= j < k -> vals j = vals' j) ->
+  tree_inv k H vals arr -> tree_inv k H vals' arr.
+Proof.
+  intros k H vals vals' arr Hk Hext [Hz [Hn H0]].
+  assert (HW : forall d h r, (d + h = H)%nat -> dep d r -> W k vals h r = W k vals' h r).
+  { intros d h r E Hd. apply W_ext. intros j U. apply Hext. eapply (under_range k H Hk d h r); eauto. }
+  split; auto. split.
+  - intros d h r E Hd. rewrite (Hn d h r E Hd). destruct (dep_children d r Hd) as [D1 D2].
+    rewrite (HW (S d) h (2 * r)), (HW (S d) h (2 * r + 1)); auto; lia.
+  - rewrite H0. apply (HW 0%nat H 1); [lia|]. unfold dep. cbn [p2]. lia.
+Qed.
+
+(* ---------- LoserTree(ik) for 1 <= ik <= 64 ---------- *)
+Definition Hof (n : Z) : nat :=
+  if n <=? 1 then 0 else if n <=? 2 then 1 else if n <=? 4 then 2 else if n <=? 8 then 3
+  else if n <=? 16 then 4 else if n <=? 32 then 5 else 6.
+
+Lemma np2_table : forall n, 1 <= n <= 64 ->
+  wrapU 8 (next_pow2 n) = p2 (Hof n) /\ n <= p2 (Hof n) /\ (Hof n <= 6)%nat.
+Proof.
+  intros n Hn.
+  assert (Hall : forallb (fun n => (wrapU 8 (next_pow2 n) =? p2 (Hof n)) && (n <=? p2 (Hof n)) && (Nat.leb (Hof n) 6))
+                         (zseq 1 64) = true) by (vm_compute; reflexivity).
+  rewrite forallb_forall in Hall. specialize (Hall n).
+  assert (Hin : In n (zseq 1 64)) by (apply zseq_in; lia). specialize (Hall Hin).
+  apply andb_true_iff in Hall. destruct Hall as [Hall H3]. apply andb_true_iff in Hall. destruct Hall as [H1 H2].
+  apply Nat.leb_le in H3. split; [lia|split; [lia|auto]].
+Qed.
+
+Lemma ga_repeat : forall n i, ga (repeat ((0, 0) : loser) n) i = (0, 0).
+Proof.
+  intros n i. unfold ga. destruct (nth_error (repeat ((0, 0) : loser) n) (Z.to_nat i)) as [x|] eqn:E; [|reflexivity].
+  apply nth_error_In in E. apply repeat_spec in E. exact E.
+Qed.
+
+Lemma fold_pad : forall m a k v base, 0 <= a + k -> a + k + Z.of_nat m <= zlen base ->
+  let r := fold_left (fun l i => set_nth l (Z.to_nat (i + k)) v) (zseq a m) base in
+  zlen r = zlen base /\
+  forall j, 0 <= j -> ga r j = if (a + k <=? j) && (j <? a + k + Z.of_nat m) then v else ga base j.
+Proof.
+  induction m as [|m IH]; intros a k v base H0 H1; cbn [zseq fold_left].
+  - split; auto. intros j Hj. assert (E : ((a + k <=? j) && (j <? a + k + Z.of_nat 0)) = false) by lia.
+    rewrite E. reflexivity.
+  - destruct (IH (a + 1) k v (set_nth base (Z.to_nat (a + k)) v)) as [I1 I2]; try lia.
+    { rewrite zlen_set_nth. lia. }
+    cbn zeta in *. split; [rewrite I1, zlen_set_nth; auto|].
+    intros j Hj. rewrite I2 by auto. rewrite ga_set by lia.
+    destruct (j =? a + k) eqn:E1.
+    + assert (E2 : ((a + k <=? j) && (j <? a + k + Z.of_nat (S m))) = true) by lia. rewrite E2.
+      destruct ((a + 1 + k <=? j) && (j <? a + 1 + k + Z.of_nat m)); reflexivity.
+    + destruct ((a + 1 + k <=? j) && (j <? a + 1 + k + Z.of_nat m)) eqn:E3,
+               ((a + k <=? j) && (j <? a + k + Z.of_nat (S m))) eqn:E4; auto; lia.
+Qed.
+
+Lemma insert_keys_ok : forall keys k arr i0, 0 <= i0 -> 0 <= k -> i0 + zlen keys <= k -> zlen arr = 2 * k ->
+  exists arr', insert_keys (mkLt k arr) keys i0 = Ok (mkLt k arr') /\ zlen arr' = 2 * k /\
+    forall j, 0 <= j -> ga arr' j =
+      if (k + i0 <=? j) && (j <? k + i0 + zlen keys) then (nth (Z.to_nat (j - k - i0)) keys 0, j - k) else ga arr j.
+Proof.
+  induction keys as [|key keys IH]; intros k arr i0 H0 Hk0 Hle Hz; cbn [insert_keys].
+  - exists arr. csplit; auto. intros j Hj. unfold zlen. cbn [length].
+    assert (E : ((k + i0 <=? j) && (j <? k + i0 + Z.of_nat 0)) = false) by lia. rewrite E. reflexivity.
+  - unfold zlen in Hle. cbn [length] in Hle. cbn [lt_k].
+    rewrite (lt_set_ok k arr (k + i0) _ ltac:(lia)). cbn [bind].
+    destruct (IH k (set_nth arr (Z.to_nat (k + i0)) (key, i0)) (i0 + 1)) as [arr' [R [Z' G]]]; try lia.
+    { unfold zlen. lia. }
+    { rewrite zlen_set_nth. auto. }
+    exists arr'. csplit; auto. intros j Hj. rewrite G by auto. rewrite ga_set by lia.
+    unfold zlen. cbn [length].
+    destruct (j =? k + i0) eqn:E1.
+    + assert (E2 : ((k + (i0 + 1) <=? j) && (j <? k + (i0 + 1) + Z.of_nat (length keys))) = false) by lia.
+      assert (E3 : ((k + i0 <=? j) && (j <? k + i0 + Z.of_nat (S (length keys)))) = true) by lia.
+      rewrite E2, E3. replace (j - k - i0) with 0 by lia. cbn [Z.to_nat nth]. f_equal. lia.
+    + destruct ((k + (i0 + 1) <=? j) && (j <? k + (i0 + 1) + Z.of_nat (length keys))) eqn:E2.
+      * assert (E3 : ((k + i0 <=? j) && (j <? k + i0 + Z.of_nat (S (length keys)))) = true) by lia.
+        rewrite E3. replace (Z.to_nat (j - k - i0)) with (S (Z.to_nat (j - k - (i0 + 1)))) by lia.
+        reflexivity.
+      * assert (E3 : ((k + i0 <=? j) && (j <? k + i0 + Z.of_nat (S (length keys)))) = false) by lia.
+        rewrite E3. reflexivity.
+Qed.
+
+(* leaf values the tree stands for *)
+Definition hvals (kmax : Z) (heads : list (option Z)) : Z -> loser :=
+  fun j => match nth_error heads (Z.to_nat j) with Some o => (hkey kmax o, j) | None => (kmax, 255) end.
+
+Definition padded (kmax k n : Z) : list loser :=
+  fold_left (fun (l : list loser) (i : Z) => set_nth l (Z.to_nat (i + k)) ((kmax, 255) : loser))
+            (zseq (n - 1) (Z.to_nat (k - (n - 1)))) (repeat ((0, 0) : loser) (Z.to_nat (2 * k))).
+
+Lemma lt_new_padded : forall kmax n, n <> 0 ->
+  lt_new kmax n = mkLt (wrapU 8 (next_pow2 n)) (padded kmax (wrapU 8 (next_pow2 n)) n).
+Proof.
+  intros kmax n Hn. unfold lt_new, padded. assert (E0 : (n =? 0) = false) by lia. rewrite E0. reflexivity.
+Qed.
+
+Lemma padded_spec : forall kmax k n, 1 <= n <= k ->
+  zlen (padded kmax k n) = 2 * k /\ forall j, 0 <= j -> ga (padded kmax k n) j = if (n - 1 + k <=? j) && (j <? 2 * k) then (kmax, 255) else (0, 0).
+Proof.
+  intros kmax k n Hn. unfold padded.
+  remember (repeat ((0, 0) : loser) (Z.to_nat (2 * k))) as base eqn:Eb.
+  assert (Hzb : zlen base = 2 * k) by (unfold zlen; rewrite Eb, repeat_length; lia).
+  assert (Hp0 : 0 <= n - 1 + k) by lia.
+  assert (Hp1 : n - 1 + k + Z.of_nat (Z.to_nat (k - (n - 1))) <= zlen base) by lia.
+  pose proof (fold_pad (Z.to_nat (k - (n - 1))) (n - 1) k (kmax, 255) base Hp0 Hp1) as Hfp.
+  cbn zeta in Hfp. destruct Hfp as [P1 P2]. split; [exact (eq_trans P1 Hzb)|].
+  intros j Hj. etransitivity; [exact (P2 j Hj)|]. rewrite Eb, ga_repeat.
+  destruct ((n - 1 + k <=? j) && (j <? n - 1 + k + Z.of_nat (Z.to_nat (k - (n - 1))))) eqn:E1,
+           ((n - 1 + k <=? j) && (j <? 2 * k)) eqn:E2; auto; lia.
+Qed.
+
+Lemma lt_new_insert : forall kmax keys, 1 <= zlen keys <= 64 ->
+  exists arr, insert_keys (lt_new kmax (zlen keys)) keys 0 = Ok (mkLt (p2 (Hof (zlen keys))) arr) /\
+    zlen arr = 2 * p2 (Hof (zlen keys)) /\ leaves_ok (p2 (Hof (zlen keys))) (hvals kmax (map Some keys)) arr.
+Proof.
+  intros kmax keys Hn. remember (zlen keys) as n eqn:En. destruct (np2_table n Hn) as [T1 [T2 T3]].
+  remember (p2 (Hof n)) as k eqn:Ek. rewrite (lt_new_padded kmax n ltac:(lia)), T1.
+  destruct (padded_spec kmax k n ltac:(lia)) as [P1 P2].
+  destruct (insert_keys_ok keys k (padded kmax k n) 0 ltac:(lia) ltac:(lia) ltac:(lia) P1) as [arr [R [Z' G]]].
+  exists arr. csplit; auto. intros j Hj. rewrite G by lia. rewrite <- En. unfold hvals.
+  destruct (Z_lt_dec j n) as [Hlt|Hge].
+  - assert (E1 : ((k + 0 <=? k + j) && (k + j <? k + 0 + n)) = true) by lia. rewrite E1.
+    replace (k + j - k - 0) with j by lia. rewrite nth_error_map.
+    assert (Hjn : (Z.to_nat j < length keys)%nat) by (unfold zlen in En; lia).
+    rewrite (nth_error_nth' keys 0 Hjn). cbn [option_map hkey]. f_equal. lia.
+  - assert (E1 : ((k + 0 <=? k + j) && (k + j <? k + 0 + n)) = false) by lia. rewrite E1.
+    rewrite P2 by lia.
+    assert (E2 : ((n - 1 + k <=? k + j) && (k + j <? 2 * k)) = true) by lia.
+    rewrite E2. assert (Hn2 : nth_error (map Some keys) (Z.to_nat j) = None).
+    { apply nth_error_None. rewrite map_length. unfold zlen in En. lia. }
+    rewrite Hn2. reflexivity.
+Qed.
+
+(* ---------- the concrete tree_ok ---------- *)
+Definition headok (kmax : Z) (o : option Z) : Prop := match o with Some x => x < kmax | None => True end.
+
+Definition tree_ok_c (kmax : Z) (t : ltree) (heads : list (option Z)) : Prop :=
+  exists H, (H <= 6)%nat /\ lt_k t = p2 H /\ zlen heads <= lt_k t /\ Forall (headok kmax) heads /\
+            tree_inv (lt_k t) H (hvals kmax heads) (lt_losers t).
+
+Lemma p2_le_64 : forall H, (H <= 6)%nat -> p2 H <= 64.
+Proof. intros H HH. pose proof (p2_mono H 6 HH). cbn [p2] in *. lia. Qed.
+
+Lemma hvals_cases : forall kmax heads j, 0 <= j ->
+  (j < zlen heads /\ exists o, nth_error heads (Z.to_nat j) = Some o /\ hvals kmax heads j = (hkey kmax o, j)) \/
+  (zlen heads <= j /\ hvals kmax heads j = (kmax, 255)).
+Proof.
+  intros kmax heads j Hj. unfold hvals, zlen. destruct (nth_error heads (Z.to_nat j)) as [o|] eqn:E.
+  - left. split; [|eauto]. assert (Hn : nth_error heads (Z.to_nat j) <> None) by congruence.
+    apply nth_error_Some in Hn. lia.
+  - right. split; auto. apply nth_error_None in E. lia.
+Qed.
+
+Lemma hvals_nth : forall kmax heads j o, nth_error heads j = Some o ->
+  hvals kmax heads (Z.of_nat j) = (hkey kmax o, Z.of_nat j).
+Proof. intros kmax heads j o Hn. unfold hvals. rewrite Nat2Z.id, Hn. reflexivity. Qed.
+
+Lemma hvals_mono : forall kmax heads, zlen heads <= 255 -> forall i j, 0 <= i -> i < j ->
+  snd (hvals kmax heads i) <= snd (hvals kmax heads j).
+Proof.
+  intros kmax heads Hn i j Hi Hij.
+  destruct (hvals_cases kmax heads i Hi) as [[Hi1 [oi [_ Ei]]]|[Hi1 Ei]];
+  destruct (hvals_cases kmax heads j ltac:(lia)) as [[Hj1 [oj [_ Ej]]]|[Hj1 Ej]];
+    rewrite Ei, Ej; cbn [snd]; lia.
+Qed.
+
+Lemma hvals_set : forall kmax heads s nk j, 0 <= s < zlen heads -> 0 <= j ->
+  hvals kmax (set_nth heads (Z.to_nat s) nk) j = upd (hvals kmax heads) s (hkey kmax nk, s) j.
+Proof.
+  intros kmax heads s nk j Hs Hj. unfold hvals, upd. rewrite set_nth_nth_error. unfold zlen in Hs.
+  destruct (j =? s) eqn:E.
+  - assert (E1 : Nat.eqb (Z.to_nat j) (Z.to_nat s) = true) by (apply Nat.eqb_eq; lia). rewrite E1.
+    assert (E2 : Nat.ltb (Z.to_nat s) (length heads) = true) by (apply Nat.ltb_lt; lia). rewrite E2.
+    f_equal. lia.
+  - assert (E1 : Nat.eqb (Z.to_nat j) (Z.to_nat s) = false) by (apply Nat.eqb_neq; lia). rewrite E1. reflexivity.
+Qed.
+
+Lemma root_min : forall k H vals arr, k = p2 H -> tree_inv k H vals arr ->
+  exists j0, 0 <= j0 < k /\ ga arr 0 = vals j0 /\ forall j, 0 <= j < k -> le2 (vals j0) (vals j).
+Proof.
+  intros k H vals arr Hk [Hz [Hn H0]]. pose proof (p2_pos H) as Hp.
+  assert (Hd : dep 0 1) by (unfold dep; cbn [p2]; lia).
+  destruct (W_in k vals H 1) as [j0 [U0 E0]]. exists j0.
+  split; [eapply (under_range k H Hk 0 H 1); eauto|]. split; [congruence|].
+  intros j Hj. rewrite <- E0. apply W_min. unfold under. lia.
+Qed.
+
+Theorem ti_init_c : forall kmax keys, 0 < zlen keys <= 64 -> Forall (fun k => k < kmax) keys ->
+  exists t1 t2, insert_keys (lt_new kmax (zlen keys)) keys 0 = Ok t1 /\ lt_init t1 = Ok t2 /\
+                tree_ok_c kmax t2 (map Some keys).
+Proof.
+  intros kmax keys Hn Hk. destruct (lt_new_insert kmax keys ltac:(lia)) as [arr [R [Hz Hl]]].
+  destruct (np2_table (zlen keys) ltac:(lia)) as [_ [T2 T3]].
+  set (H := Hof (zlen keys)) in *. set (k := p2 H) in *.
+  assert (Hzh : zlen (map Some keys) = zlen keys) by (unfold zlen; rewrite map_length; reflexivity).
+  destruct (lt_init_ok k H eq_refl (hvals kmax (map Some keys))) with (arr := arr) as [arr' [Hi Ht]]; auto.
+  - intros i j Hi Hij _ _. apply hvals_mono; auto. lia.
+  - lia.
+  - eexists. eexists. split; [exact R|]. split; [exact Hi|].
+    exists H. cbn [lt_k lt_losers]. csplit; auto; try lia.
+    apply Forall_forall. intros o Ho. apply in_map_iff in Ho. destruct Ho as [x [<- Hx]].
+    rewrite Forall_forall in Hk. cbn. auto.
+Qed.
+
+Lemma min_source_ga : forall k arr, 0 < zlen arr -> min_source (mkLt k arr) = Ok (snd (ga arr 0)).
+Proof. intros k arr Hz. unfold min_source. rewrite (lt_get_ga k arr 0 ltac:(lia)). reflexivity. Qed.
+
+Theorem ti_min_c : forall kmax t heads, tree_ok_c kmax t heads ->
+  (exists j k, nth_error heads j = Some (Some k)) ->
+  exists s, min_source t = Ok s /\ is_min_src kmax heads s.
+Proof.
+  intros kmax [k arr] heads [H [HH [Hk [Hn [Hok Ht]]]]] [j1 [k1 Hj1]]. cbn [lt_k lt_losers] in *.
+  pose proof (p2_pos H) as Hp. pose proof (p2_le_64 H HH) as H64.
+  destruct (root_min k H _ arr Hk Ht) as [j0 [Hj0 [E0 Hmin]]].
+  assert (Hz : zlen arr = 2 * k) by apply Ht.
+  rewrite (min_source_ga k arr ltac:(lia)), E0.
+  assert (Hj1n : Z.of_nat j1 < zlen heads).
+  { assert (Hne : nth_error heads j1 <> None) by congruence. apply nth_error_Some in Hne. unfold zlen. lia. }
+  pose proof (Hmin (Z.of_nat j1) ltac:(lia)) as Hle1. rewrite (hvals_nth kmax heads j1 _ Hj1) in Hle1.
+  assert (Hk1 : k1 < kmax) by (apply (Forall_forall (headok kmax) heads) with (x := Some k1) in Hok; [exact Hok|eapply nth_error_In; eauto]).
+  destruct (hvals_cases kmax heads j0 ltac:(lia)) as [[Hlt [o [Ho Ev]]]|[Hge Ev]]; rewrite Ev in *.
+  - exists j0. cbn [snd]. split; [reflexivity|]. unfold is_min_src. split; [lia|].
+    destruct o as [kk|].
+    + exists kk. split; [exact Ho|]. intros j o Hj. assert (Hjn : Z.of_nat j < zlen heads).
+      { assert (Hne : nth_error heads j <> None) by congruence. apply nth_error_Some in Hne. unfold zlen. lia. }
+      pose proof (Hmin (Z.of_nat j) ltac:(lia)) as Hle. rewrite (hvals_nth kmax heads j _ Hj) in Hle.
+      unfold le2, lt2b in Hle. cbn [fst snd hkey] in Hle. lia.
+    + exfalso. unfold le2, lt2b in Hle1. cbn [fst snd hkey] in Hle1. lia.
+  - exfalso. unfold le2, lt2b in Hle1. cbn [fst snd hkey] in Hle1. lia.
+Qed.
+
+Theorem ti_step_c : forall kmax t heads s k nk, tree_ok_c kmax t heads -> min_source t = Ok s -> 0 <= s ->
+  nth_error heads (Z.to_nat s) = Some (Some k) ->
+  match nk with Some k' => k' < kmax | None => True end ->
+  exists t', delete_min_insert kmax t nk = Ok t' /\ tree_ok_c kmax t' (set_nth heads (Z.to_nat s) nk).
+Proof.
+  intros kmax [k arr] heads s kk nk [H [HH [Hk [Hn [Hok Ht]]]]] Hms Hs0 Hs Hnk. cbn [lt_k lt_losers] in *.
+  pose proof (p2_pos H) as Hp. pose proof (p2_le_64 H HH) as H64.
+  destruct (root_min k H _ arr Hk Ht) as [j0 [Hj0 [E0 Hmin]]].
+  assert (Hz : zlen arr = 2 * k) by apply Ht.
+  rewrite (min_source_ga k arr ltac:(lia)), E0 in Hms.
+  assert (Hsn : s < zlen heads).
+  { assert (Hne : nth_error heads (Z.to_nat s) <> None) by congruence. apply nth_error_Some in Hne. unfold zlen. lia. }
+  assert (Hj0s : j0 = s).
+  { destruct (hvals_cases kmax heads j0 ltac:(lia)) as [[Hlt [o [Ho Ev]]]|[Hge Ev]]; rewrite Ev in Hms;
+      cbn [snd] in Hms; inversion Hms; lia. }
+  subst j0.
+  assert (Hsnd : snd (hvals kmax heads s) = s).
+  { unfold hvals. rewrite Hs. reflexivity. }
+  destruct (dmi_ok k H Hk (hvals kmax heads) s (hkey kmax nk, s) ltac:(lia) Hmin kmax arr nk Ht Hsnd ltac:(lia) eq_refl)
+    as [arr' [Hd Ht']].
+  exists (mkLt k arr'). split; [exact Hd|]. exists H. cbn [lt_k lt_losers]. csplit; auto.
+  - rewrite zlen_set_nth. auto.
+  - apply Forall_forall. intros o Ho. apply set_nth_in in Ho. destruct Ho as [->|Ho].
+    + destruct nk; cbn; auto.
+    + rewrite Forall_forall in Hok. auto.
+  - eapply tree_inv_ext; [exact Hk| |exact Ht']. intros j Hj. symmetry. apply hvals_set; lia.
+Qed.
+
+Theorem tree_iface_holds : forall kmax, tree_iface kmax (tree_ok_c kmax).
+Proof.
+  intros kmax. constructor.
+  - apply ti_init_c.
+  - apply ti_min_c.
+  - apply ti_step_c.
+Qed.
+
+Print Assumptions tree_iface_holds.
